@@ -67,6 +67,30 @@ def case_hash(case: Any) -> str:
     return hashlib.sha1(canon(case).encode()).hexdigest()[:16]
 
 
+class CaseBudget(BaseException):
+    """Raised by the CPU-time watchdog around one evaluation."""
+
+
+def _with_cpu_cap(fn: Callable[[Any], Any], case: Any) -> Any:
+    import signal
+    import threading
+
+    cap = float(os.environ.get("VERIF_CASE_CPU_S", "300"))
+    if cap <= 0 or threading.current_thread() is not threading.main_thread():
+        return fn(case)
+
+    def on_alarm(signum: int, frame: Any) -> None:  # noqa: ARG001
+        raise CaseBudget()
+
+    old = signal.signal(signal.SIGVTALRM, on_alarm)
+    signal.setitimer(signal.ITIMER_VIRTUAL, cap)
+    try:
+        return fn(case)
+    finally:
+        signal.setitimer(signal.ITIMER_VIRTUAL, 0)
+        signal.signal(signal.SIGVTALRM, old)
+
+
 class Ctx:
     """Per-process accumulation of what a campaign explored and found."""
 
@@ -94,7 +118,13 @@ class Ctx:
         """Evaluate and record. ``enumerated``: the caller enumerates distinct
         cases, so a non-trivial one is counted instead of hashed."""
         try:
-            v = self.evaluate(case)
+            v = _with_cpu_cap(self.evaluate, case)
+        except CaseBudget:
+            # a single case used more CPU than any legitimate case comes near (VERIF_CASE_CPU_S, default 300 s):
+            # a resource budget, so inconclusive - never a violation (termination itself is C09's business,
+            # which has its own deterministic step budget)
+            v = Verdict()
+            v.labels.append("inconclusive:case-cpu-cap")
         except MemoryError:
             # the shard's memory cap was hit inside the harness itself (the library contains a MemoryError of its
             # own): a resource budget, so inconclusive - never a violation, never a harness error
